@@ -42,3 +42,14 @@ impl LuaIndex for LuaMetatableIndex {
         self.metatables.clear();
     }
 }
+
+/// Verification hook (feature `verif-hooks`, off by default): entry count of every container
+/// of this index, so that tests can observe growth of indexed state.
+#[cfg(feature = "verif-hooks")]
+impl LuaMetatableIndex {
+    pub fn verif_sizes(&self) -> Vec<(&'static str, usize)> {
+        vec![
+            ("metatable.metatables", self.metatables.len()),
+        ]
+    }
+}
